@@ -58,6 +58,7 @@ type c06In struct {
 	ErrWith   bool   `json:"err_with_data,omitempty"` // "reader": the error comes together with the last bytes
 	NoFail    bool   `json:"no_fail,omitempty"`   // "reader": control, the reader ends with io.EOF
 	Aligned   *c06Aligned `json:"aligned,omitempty"` // one large input of fixed-width numbered records (tree / stdin_hex are derived)
+	Nofile    int      `json:"nofile,omitempty"` // > 0: rare runs with this descriptor limit (ulimit -n, soft and hard)
 	Mode      int      `json:"mode"` // 0 filter (all lines), 1 filter -m '^.*Q.*$', 2 histo -e {src} -e {0}
 	Q         int      `json:"q"`    // the byte Q of mode 1
 }
@@ -302,6 +303,10 @@ func runRare(root string, in c06In) c06Out {
 	}
 	args = append(args, in.Args...)
 	cmd := exec.Command(buildRare(), args...)
+	if in.Nofile > 0 {
+		// every input is closed when it has been read: the number of inputs is not bounded by the descriptor limit
+		cmd = exec.Command("sh", append([]string{"-c", fmt.Sprintf("ulimit -n %d && exec \"$0\" \"$@\"", in.Nofile), buildRare()}, args...)...)
+	}
 	cmd.Dir = root
 	stdin, _ := hex.DecodeString(in.Stdin)
 	if in.StdinFail == "dir" {
@@ -879,6 +884,9 @@ func c06Case(in c06In) Case {
 			tags = append(tags, "z:"+k)
 		}
 	}
+	if in.Nofile > 0 {
+		add(fmt.Sprintf("more-inputs-than-descriptors(limit=%d)", in.Nofile), true)
+	}
 	if out.Exit == 2 && len(out.Lines) > 0 {
 		add("failure+other-inputs-read", true)
 	}
@@ -1252,6 +1260,22 @@ func fifoCases() []c06In {
 	return out
 }
 
+// more inputs than descriptors: 130 small files, rare limited to 40 open descriptors
+func manyFilesCases() []c06In {
+	var tree []c06Ent
+	tree = append(tree, c06Ent{Path: "many", Dir: true})
+	for i := 0; i < 130; i++ {
+		tree = append(tree, c06Ent{Path: fmt.Sprintf("many/f%03d", i), Data: hex.EncodeToString([]byte(fmt.Sprintf("Q%d\n", i))), Kind: "plain"})
+	}
+	var out []c06In
+	for _, rd := range []int{1, 3} {
+		out = append(out, c06In{Tree: tree, Args: []string{"many/*"}, Readers: rd, Workers: 2, Batch: 1000, Q: 'Q', Nofile: 40})
+		out = append(out, c06In{Tree: tree, Args: []string{"many"}, Recursive: true, Readers: rd, Workers: 1, Batch: 1, Q: 'Q', Mode: 1, Nofile: 40})
+		out = append(out, c06In{Tree: tree, Args: []string{"nope", "many/*", "many/f0*"}, Gunzip: true, Readers: rd, Workers: 2, Batch: 1000, Q: 'Q', Nofile: 40})
+	}
+	return out
+}
+
 func gen(r *Rng, n int, tier string) []Case {
 	buildRare()
 	var cases []Case
@@ -1267,6 +1291,9 @@ func gen(r *Rng, n int, tier string) []Case {
 	for _, in := range fifoCases() {
 		cases = append(cases, c06Case(in))
 	}
+	for _, in := range manyFilesCases() {
+		cases = append(cases, c06Case(in))
+	}
 	for len(cases) < n {
 		cases = append(cases, c06Case(genIn(r.Fork())))
 	}
@@ -1278,7 +1305,7 @@ func main() {
 		Name:   "C06",
 		Header: "From Coq Require Import List NArith ZArith String.\nFrom RareV Require Import Corr.C06Case.\nImport ListNotations.\nLocal Open Scope string_scope.\nLocal Open Scope N_scope.\n",
 		Rule: "the rare binary built from the tree under test, run (filter -e '{src}:{line}:{0}', filter -m '^.*Q.*$', histo -e {src} -e {0}) in real temporary trees: " +
-			"a fixed scope (20 argument lists x -z x -R on one tree with plain / gzip / truncated gzip / empty files and nested directories, stdin forms, 26 argument lists x -R over a tree of pattern-named files and directories next to the siblings their names match as patterns (x[1].log+x1.log, s*.txt+sab.txt, w?.txt+wa.txt, r[a-c].log+rb.log, a\\*b+a*b, *+zz, g[1]/+g1/, h*/+hx/, malformed k[), walked directly, from a parent, and mixed with the same names as command-line patterns; 84 named-pipe cases (7 contents: 6 bytes, 2 bytes, empty, > 4096 bytes, gzip, gzip cut inside its header, gzip cut inside its body; as argument, next to a file, as glob match, below a -R directory; x -z) with a writer goroutine per pipe; 8 large single-input cases of fixed-width numbered records (1300 x 128 bytes as plain file, plain under -z, gzip under -z, standard input, with --batch 100000 so that every line is still held when the buffer is refilled; 2200 x 128 bytes with the default batch and 3 workers; 1300 x 128 bytes through a named pipe: plain, plain under -z, gzip under -z): a newline is exactly the last byte of a full 128 KiB read-ahead buffer and every record must be printed exactly once under its own line number; standard input failing while read: directory handle at CLI level, and at library level batchers.OpenReaderToChan + helpers.DetermineErrorState over a reader that fails after 0-3 lines) then seeded random trees (depth <= 3, names incl. glob metacharacters, a named pipe in 1 directory of 9 (made a regular file when the arguments mention it more than once: a pipe cannot be read twice), pattern-named entries paired with a sibling the name matches (1 directory in 3), malformed-pattern names, " +
+			"a fixed scope (20 argument lists x -z x -R on one tree with plain / gzip / truncated gzip / empty files and nested directories, stdin forms, 26 argument lists x -R over a tree of pattern-named files and directories next to the siblings their names match as patterns (x[1].log+x1.log, s*.txt+sab.txt, w?.txt+wa.txt, r[a-c].log+rb.log, a\\*b+a*b, *+zz, g[1]/+g1/, h*/+hx/, malformed k[), walked directly, from a parent, and mixed with the same names as command-line patterns; 84 named-pipe cases (7 contents: 6 bytes, 2 bytes, empty, > 4096 bytes, gzip, gzip cut inside its header, gzip cut inside its body; as argument, next to a file, as glob match, below a -R directory; x -z) with a writer goroutine per pipe; 6 cases of 130-230 small inputs read with a descriptor limit of 40 (ulimit -n; --readers 1 and 3; glob, -R, -z over plain files): every input is closed when read, so all lines are present and there is no read error; 8 large single-input cases of fixed-width numbered records (1300 x 128 bytes as plain file, plain under -z, gzip under -z, standard input, with --batch 100000 so that every line is still held when the buffer is refilled; 2200 x 128 bytes with the default batch and 3 workers; 1300 x 128 bytes through a named pipe: plain, plain under -z, gzip under -z): a newline is exactly the last byte of a full 128 KiB read-ahead buffer and every record must be printed exactly once under its own line number; standard input failing while read: directory handle at CLI level, and at library level batchers.OpenReaderToChan + helpers.DetermineErrorState over a reader that fails after 0-3 lines) then seeded random trees (depth <= 3, names incl. glob metacharacters, a named pipe in 1 directory of 9 (made a regular file when the arguments mention it more than once: a pipe cannot be read twice), pattern-named entries paired with a sibling the name matches (1 directory in 3), malformed-pattern names, " +
 			"files: plain, empty, gzip, truncated gzip (header/body/trailer), damaged trailer, damaged deflate body, multi-member, trailing garbage, plain > 4096 bytes) x 1-4 arguments (file, directory with or without trailing slash, glob, missing path, " +
 			"duplicate, malformed pattern, the same file spelled with ./ // dir/.. missing/.. or a trailing /. , '-' first or later, none) x -z x -R x --readers 1-4 x --workers 1-3 x --batch {1,2,3,1000}. Oracles: os.Stat, filepath.Glob, os.ReadDir order, compress/gzip called by the harness on the same tree. " +
 			"distinct = distinct (tree, arguments, flags, stdin); non-trivial = at least one of: a named pipe that is read, a directory walked by -R, a walked entry whose name read as a pattern would match something else, a glob with >= 2 matches, a pattern without match taken literally, a missing path next to other arguments, " +
